@@ -96,7 +96,14 @@ type CleanObs struct {
 }
 
 type Op struct {
-	K string `json:"k"` // "src" | "rules" | "tamper" | "touchout" | "advance" | "newbuilder" | "build"
+	// "src" | "rules" | "tamper" | "touchout" | "advance" | "build" |
+	// "newbuilder" (the long-lived Builder is replaced) |
+	// "wipe" (rm -rf out/, the sqlite file out/CACHE included) |
+	// "pkgs" (WORKSPACE.caco3 rewritten to list Pkgs; the Builder is replaced,
+	// because ReadWorkspace memoises the workspace for the Builder's lifetime)
+	K string `json:"k"`
+
+	Pkgs []string `json:"pkgs,omitempty"`
 
 	Name    string `json:"name,omitempty"`
 	Stat    *Stat  `json:"stat,omitempty"` // nil: delete
@@ -133,12 +140,28 @@ type Case struct {
 	// "newbuilder" operation.  Everything a Builder holds across Build calls
 	// (env.workspace, env.nodeType/ruleType, and - if the code ever kept it -
 	// the buildContext with its memo and cache handle) lives as long as that.
-	Builder string    `json:"builder"`
+	Builder string `json:"builder"`
+	// Work: the package directory the Builders are created in ("" = the
+	// workspace root): Build then reads its targets relative to it
+	// (env.workSrcPath, fixed at NewBuilder), and the harness spells them so.
+	Work string `json:"work,omitempty"`
 	Pkgs   []string  `json:"pkgs"`
 	Rules  []Rule    `json:"rules"`
 	Src    []SrcFile `json:"src"`
 	Ops    []Op      `json:"ops"`
 	Crash  string    `json:"crash,omitempty"`
+	// open file descriptors of the harness process before and after the
+	// history, and the number of Build calls in between (every Build opens a
+	// sqlite handle on out/CACHE that is never closed)
+	Fds []int `json:"fds,omitempty"`
+}
+
+func countFds() int {
+	es, err := os.ReadDir("/proc/self/fd")
+	if err != nil {
+		return -1
+	}
+	return len(es)
 }
 
 // ------------------------------------------------------------- workspace
@@ -340,6 +363,7 @@ var chmodCount uint32
 // style: one per configuration (AlwaysRebuild is a Config field).
 type builders struct {
 	keep bool
+	work string
 	m    map[bool]*caco3.Builder
 }
 
@@ -351,7 +375,11 @@ func (bs *builders) get(root string, always bool) (*caco3.Builder, string) {
 			return b, ""
 		}
 	}
-	b, err := caco3.NewBuilder(root, &caco3.Config{Root: root, AlwaysRebuild: always})
+	workDir := root
+	if bs != nil && bs.work != "" {
+		workDir = filepath.Join(root, "src", filepath.FromSlash(bs.work))
+	}
+	b, err := caco3.NewBuilder(workDir, &caco3.Config{Root: root, AlwaysRebuild: always})
 	if err != nil {
 		return nil, "new builder: " + err.Error()
 	}
@@ -373,6 +401,13 @@ func realBuild(bs *builders, root string, targets []string, always bool) (ok boo
 	if b == nil {
 		return false, msg, exec
 	}
+	if bs != nil && bs.work != "" {
+		var ts []string
+		for _, t := range targets {
+			ts = append(ts, spell(bs.work, t))
+		}
+		targets = ts
+	}
 	errs := b.Build(targets)
 	for _, line := range strings.Split(logBuf.String(), "\n") {
 		if strings.HasPrefix(line, "BUILD ") {
@@ -393,14 +428,22 @@ func realBuild(bs *builders, root string, targets []string, always bool) (ok boo
 // out/ was written, so that a rebuilt output cannot get the mtime it had (the
 // model's hypothesis "an output write leaves a new stat"; only matters on file
 // systems with coarse timestamps).
+// newestOut is the newest modification time any output of the current
+// history ever had (outputs may have been deleted or the whole out/ removed
+// since).
+var newestOut time.Time
+
 func waitTick(root string) {
-	var newest time.Time
+	newest := newestOut
 	filepath.Walk(filepath.Join(root, "out"), func(p string, info os.FileInfo, err error) error {
 		if err == nil && !info.IsDir() && info.ModTime().After(newest) {
 			newest = info.ModTime()
 		}
 		return nil
 	})
+	if newest.After(newestOut) {
+		newestOut = newest
+	}
 	if d := time.Since(newest); d >= 0 && d < 8*time.Millisecond {
 		time.Sleep(8*time.Millisecond - d)
 	}
@@ -433,6 +476,7 @@ func entriesJSON(es []Entry) []byte {
 func runCase(c *Case, withClean bool) {
 	cacheNow = time.Unix(1700000000, 0)
 	chmodCount = 0
+	newestOut = time.Time{}
 	root, err := os.MkdirTemp(scratch, "c10-")
 	if err != nil {
 		fatal("scratch", err)
@@ -449,12 +493,29 @@ func runCase(c *Case, withClean bool) {
 	if err := writeBuildFiles(root, c.Pkgs, c.Rules); err != nil {
 		fatal("build files", err)
 	}
-	bs := &builders{keep: c.Builder == "one"}
+	bs := &builders{keep: c.Builder == "one", work: c.Work}
 	bs.reset()
+	fd0, nb := countFds(), 0
+	defer func() { c.Fds = []int{fd0, countFds(), nb} }()
 	for i := range c.Ops {
 		op := &c.Ops[i]
+		if op.K == "build" {
+			nb++
+			if withClean {
+				nb++
+			}
+		}
 		switch op.K {
 		case "newbuilder":
+			bs.reset()
+		case "wipe":
+			if err := os.RemoveAll(filepath.Join(root, "out")); err != nil {
+				fatal("wipe", err)
+			}
+		case "pkgs":
+			if err := writeWorkspaceFile(root, op.Pkgs); err != nil {
+				fatal("workspace", err)
+			}
 			bs.reset()
 		case "src":
 			f := filepath.Join(root, "src", filepath.FromSlash(op.Name))
@@ -518,6 +579,11 @@ func runCase(c *Case, withClean bool) {
 			waitTick(root)
 			o.Ok, o.Err, o.Exec = realBuild(bs, root, op.Targets, op.Always)
 			o.Outs = snapshotOut(root)
+			for _, f := range o.Outs {
+				if t := time.Unix(0, f.Mtime); t.After(newestOut) {
+					newestOut = t
+				}
+			}
 			if withClean {
 				// implementation-only oracle: a from-scratch build of a copy
 				croot, err := os.MkdirTemp(scratch, "c10-clean-")
@@ -528,7 +594,7 @@ func runCase(c *Case, withClean bool) {
 					fatal("copy", err)
 				}
 				co := &CleanObs{}
-				co.Ok, co.Err, co.Exec = realBuild(nil, croot, op.Targets, false)
+				co.Ok, co.Err, co.Exec = realBuild(&builders{work: c.Work}, croot, op.Targets, false)
 				co.Outs = snapshotOut(croot)
 				os.RemoveAll(croot)
 				o.Clean = co
